@@ -405,8 +405,10 @@ func genC16Sem(t *rapid.T) c16SemScenario {
 // sampleFromRe draws a string that is likely (not certainly) in the language.
 func sampleFromRe(t *rapid.T, r *ref.Re) string {
 	switch r.Op {
-	case "lit":
+	case "lit", "esc":
 		return r.Lit
+	case "perl":
+		return string(rapid.SampledFrom([]rune{'a', 'Z', '7', '_', ' ', '\t', '-', 'é'}).Draw(t, "perlr"))
 	case "any":
 		return string(rapid.SampledFrom(gen.HostileAlphabet).Draw(t, "anyr"))
 	case "class":
